@@ -130,6 +130,11 @@ def _hooks():
                         continue
                     rr = z3.If(r < 0, r + L, r)
                     d = bk['dlen'](bid(rr))
+                    # "exactly the batches that never completed are dropped": a bucket that IS completed leaves the
+                    # list only after it has been emitted (the yield just before)
+                    ly = s2.ghost.get('last_yield_bid')
+                    eng.oblige('pop@%s:C17:a-completed-bucket-is-emitted-before-it-leaves-the-list' % eng.where(node if False else None),
+                               s2, z3.Implies(bk['done'](bid(rr)), ly.t == bid(rr) if ly is not None else smt.F), 'assert')
                     s2.heap[recv.oid] = {'L': L - 1,
                                          'bid': (lambda t, bid=bid, rr=rr: z3.If(t < rr, bid(t), bid(t + 1))),
                                          'cre': (lambda t, cre=cre, rr=rr: z3.If(t < rr, cre(t), cre(t + 1))),
@@ -259,6 +264,7 @@ def _setup(with_exp, with_mb, with_sort):
         me['max_buffered_examples'] = me['_mb'] if with_mb else NONE
         me['sort_key'] = FnV(smt.fresh('sort_key', smt.Fn)) if with_sort else NONE
         st.ghost['EMITTED'] = IntV(I(0))
+        st.ghost['last_yield_bid'] = IntV(I(-1))
     return setup
 
 
@@ -406,6 +412,7 @@ def _variant(with_exp, with_mb, with_sort):
         if not isinstance(value, DataV):
             return [('C17:every-emitted-batch-is-the-content-of-one-bucket', smt.F)]
         S.st.ghost['last_batch_len'] = IntV(value.n)
+        S.st.ghost['last_yield_bid'] = IntV(value.bid)
         me = S.st.heap[S.eng.self_oid]
         return [('C17:every-emitted-batch-is-the-content-of-one-bucket', value.n == bk['dlen'](value.bid)),
                 ('C17:every-emitted-batch-is-non-empty', value.n >= 1),
